@@ -54,7 +54,9 @@ type frame struct {
 	caller           *frame
 	fn               *ssa.Function
 	block, prevBlock *ssa.BasicBlock
-	env              map[ssa.Value]value // dynamic values of SSA variables
+	env              []value // dynamic values of SSA variables, indexed by fnInfo.index
+	isSet            []bool
+	info             *fnInfo
 	locals           []value
 	defers           *deferred
 	result           value
@@ -62,6 +64,71 @@ type frame struct {
 	panic            interface{}
 	phitemps         []value
 	cur              ssa.Instruction
+}
+
+func (fr *frame) set(key ssa.Value, v value) {
+	i := fr.info.index[key]
+	fr.env[i] = v
+	fr.isSet[i] = true
+}
+
+// fnInfo: per-function data computed once (name, value numbering, intrinsic binding)
+type fnInfo struct {
+	name      string
+	index     map[ssa.Value]int
+	n         int
+	intrinsic intrinsicFn
+	overlaps  bool
+	built     bool
+}
+
+func (e *Engine) fnInfoOf(fn *ssa.Function) *fnInfo {
+	if v, ok := e.fnInfos.Load(fn); ok {
+		return v.(*fnInfo)
+	}
+	info := &fnInfo{name: fn.String()}
+	if fn.Parent() == nil {
+		if strings.HasPrefix(fn.Name(), "vf_") {
+			info.intrinsic = e.vf[fn.Name()]
+		}
+		if info.intrinsic == nil {
+			info.intrinsic = e.intrinsics[info.name]
+		}
+		info.overlaps = strings.HasPrefix(info.name, "slices.overlaps[")
+	}
+	if info.intrinsic == nil && !info.overlaps {
+		if fn.Blocks == nil && fn.Pkg != nil {
+			fn.Pkg.Build()
+		}
+		if fn.Blocks != nil {
+			info.built = true
+			info.index = map[ssa.Value]int{}
+			add := func(v ssa.Value) {
+				if _, ok := info.index[v]; !ok {
+					info.index[v] = info.n
+					info.n++
+				}
+			}
+			for _, p := range fn.Params {
+				add(p)
+			}
+			for _, fv := range fn.FreeVars {
+				add(fv)
+			}
+			for _, l := range fn.Locals {
+				add(l)
+			}
+			for _, b := range fn.Blocks {
+				for _, in := range b.Instrs {
+					if v, ok := in.(ssa.Value); ok {
+						add(v)
+					}
+				}
+			}
+		}
+	}
+	e.fnInfos.Store(fn, info)
+	return info
 }
 
 func (fr *frame) get(key ssa.Value) value {
@@ -75,8 +142,10 @@ func (fr *frame) get(key ssa.Value) value {
 	case *ssa.Global:
 		return fr.m.global(key)
 	}
-	if r, ok := fr.env[key]; ok {
-		return r
+	if i, ok := fr.info.index[key]; ok {
+		if r := fr.env[i]; r != nil || fr.isSet[i] {
+			return r
+		}
 	}
 	panic(fmt.Sprintf("get: no value for %T: %v", key, key.Name()))
 }
@@ -159,35 +228,35 @@ func (m *Machine) visitInstr(fr *frame, instr ssa.Instruction) continuation {
 		// no-op
 
 	case *ssa.UnOp:
-		fr.env[instr] = m.unop(instr, fr.get(instr.X))
+		fr.set(instr, m.unop(instr, fr.get(instr.X)))
 
 	case *ssa.BinOp:
-		fr.env[instr] = m.binop(instr.Op, instr.X.Type(), fr.get(instr.X), fr.get(instr.Y))
+		fr.set(instr, m.binop(instr.Op, instr.X.Type(), fr.get(instr.X), fr.get(instr.Y)))
 
 	case *ssa.Call:
 		fn, args := m.prepareCall(fr, &instr.Call)
-		fr.env[instr] = m.call(fr, instr.Pos(), fn, args)
+		fr.set(instr, m.call(fr, instr.Pos(), fn, args))
 
 	case *ssa.ChangeInterface:
-		fr.env[instr] = fr.get(instr.X)
+		fr.set(instr, fr.get(instr.X))
 
 	case *ssa.ChangeType:
-		fr.env[instr] = fr.get(instr.X) // (can't fail)
+		fr.set(instr, fr.get(instr.X)) // (cannot fail)
 
 	case *ssa.Convert:
-		fr.env[instr] = m.convV(instr.Type(), instr.X.Type(), fr.get(instr.X))
+		fr.set(instr, m.convV(instr.Type(), instr.X.Type(), fr.get(instr.X)))
 
 	case *ssa.SliceToArrayPointer:
-		fr.env[instr] = sliceToArrayPointer(instr.Type(), instr.X.Type(), fr.get(instr.X))
+		fr.set(instr, sliceToArrayPointer(instr.Type(), instr.X.Type(), fr.get(instr.X)))
 
 	case *ssa.MakeInterface:
-		fr.env[instr] = iface{t: instr.X.Type(), v: fr.get(instr.X)}
+		fr.set(instr, iface{t: instr.X.Type(), v: fr.get(instr.X)})
 
 	case *ssa.Extract:
-		fr.env[instr] = fr.get(instr.Tuple).(tuple)[instr.Index]
+		fr.set(instr, fr.get(instr.Tuple).(tuple)[instr.Index])
 
 	case *ssa.Slice:
-		fr.env[instr] = m.slice(fr.get(instr.X), fr.get(instr.Low), fr.get(instr.High), fr.get(instr.Max))
+		fr.set(instr, m.slice(fr.get(instr.X), fr.get(instr.Low), fr.get(instr.High), fr.get(instr.Max)))
 
 	case *ssa.Return:
 		switch len(instr.Results) {
@@ -257,9 +326,9 @@ func (m *Machine) visitInstr(fr *frame, instr ssa.Instruction) continuation {
 		var addr *value
 		if instr.Heap {
 			addr = new(value)
-			fr.env[instr] = addr
+			fr.set(instr, addr)
 		} else {
-			addr = fr.env[instr].(*value)
+			addr = fr.get(instr).(*value)
 		}
 		*addr = zero(mustDeref(instr.Type()))
 
@@ -277,26 +346,26 @@ func (m *Machine) visitInstr(fr *frame, instr ssa.Instruction) continuation {
 		for i := range slice {
 			slice[i] = zero(tElt)
 		}
-		fr.env[instr] = slice[:l]
+		fr.set(instr, slice[:l])
 
 	case *ssa.MakeMap:
-		fr.env[instr] = makeMap(instr.Type().Underlying().(*types.Map).Key())
+		fr.set(instr, makeMap(instr.Type().Underlying().(*types.Map).Key()))
 
 	case *ssa.Range:
-		fr.env[instr] = m.rangeIter(fr.get(instr.X), instr.X.Type())
+		fr.set(instr, m.rangeIter(fr.get(instr.X), instr.X.Type()))
 
 	case *ssa.Next:
-		fr.env[instr] = fr.get(instr.Iter).(iter).next()
+		fr.set(instr, fr.get(instr.Iter).(iter).next())
 
 	case *ssa.FieldAddr:
 		p := fr.get(instr.X).(*value)
 		if p == nil {
 			m.nilDeref()
 		}
-		fr.env[instr] = &(*p).(structure)[instr.Field]
+		fr.set(instr, &(*p).(structure)[instr.Field])
 
 	case *ssa.Field:
-		fr.env[instr] = fr.get(instr.X).(structure)[instr.Field]
+		fr.set(instr, fr.get(instr.X).(structure)[instr.Field])
 
 	case *ssa.IndexAddr:
 		x := fr.get(instr.X)
@@ -304,14 +373,14 @@ func (m *Machine) visitInstr(fr *frame, instr ssa.Instruction) continuation {
 		switch x := x.(type) {
 		case []value:
 			i := m.indexIn(idx, len(x))
-			fr.env[instr] = &x[i]
+			fr.set(instr, &x[i])
 		case *value: // *array
 			if x == nil {
 				m.nilDeref()
 			}
 			a := (*x).(array)
 			i := m.indexIn(idx, len(a))
-			fr.env[instr] = &a[i]
+			fr.set(instr, &a[i])
 		default:
 			panic(fmt.Sprintf("unexpected x type in IndexAddr: %T", x))
 		}
@@ -321,9 +390,9 @@ func (m *Machine) visitInstr(fr *frame, instr ssa.Instruction) continuation {
 		idx := fr.get(instr.Index)
 		switch x := x.(type) {
 		case array:
-			fr.env[instr] = x[m.indexIn(idx, len(x))]
+			fr.set(instr, x[m.indexIn(idx, len(x))])
 		case string:
-			fr.env[instr] = x[m.indexIn(idx, len(x))]
+			fr.set(instr, x[m.indexIn(idx, len(x))])
 		case *symStr:
 			panic(unsupported("indexing a symbolic string"))
 		default:
@@ -332,9 +401,9 @@ func (m *Machine) visitInstr(fr *frame, instr ssa.Instruction) continuation {
 
 	case *ssa.Lookup:
 		if s, ok := fr.get(instr.X).(string); ok { // string index (s[i]) appears as Lookup? no: Index. keep for safety
-			fr.env[instr] = s[m.indexIn(fr.get(instr.Index), len(s))]
+			fr.set(instr, s[m.indexIn(fr.get(instr.Index), len(s))])
 		} else {
-			fr.env[instr] = m.lookup(instr, fr.get(instr.X), fr.get(instr.Index))
+			fr.set(instr, m.lookup(instr, fr.get(instr.X), fr.get(instr.Index)))
 		}
 
 	case *ssa.MapUpdate:
@@ -345,14 +414,14 @@ func (m *Machine) visitInstr(fr *frame, instr ssa.Instruction) continuation {
 		m.mapInsert(mm, fr.get(instr.Key), copyVal(fr.get(instr.Value)))
 
 	case *ssa.TypeAssert:
-		fr.env[instr] = typeAssert(m, instr, fr.get(instr.X).(iface))
+		fr.set(instr, typeAssert(m, instr, fr.get(instr.X).(iface)))
 
 	case *ssa.MakeClosure:
 		var bindings []value
 		for _, binding := range instr.Bindings {
 			bindings = append(bindings, fr.get(binding))
 		}
-		fr.env[instr] = &closure{instr.Fn.(*ssa.Function), bindings}
+		fr.set(instr, &closure{instr.Fn.(*ssa.Function), bindings})
 
 	case *ssa.Phi:
 		panic("unreachable: phis are processed at block entry")
@@ -439,20 +508,12 @@ func (m *Machine) callSSA(caller *frame, callpos token.Pos, fn *ssa.Function, ar
 		caller: caller,
 		fn:     fn,
 	}
+	info := m.eng.fnInfoOf(fn)
 	if fn.Parent() == nil {
-		name := fn.String()
 		if m.eng.Trace {
-			fmt.Printf("%scall %s\n", strings.Repeat(" ", m.depth), name)
+			fmt.Printf("%scall %s\n", strings.Repeat(" ", m.depth), info.name)
 		}
-		if strings.HasPrefix(fn.Name(), "vf_") {
-			if ext := m.eng.vf[fn.Name()]; ext != nil {
-				saved := m.fr
-				m.fr = fr
-				defer func() { m.fr = saved }()
-				return ext(fr, args)
-			}
-		}
-		if strings.HasPrefix(name, "slices.overlaps[") {
+		if info.overlaps {
 			a, b := args[0].([]value), args[1].([]value)
 			if len(a) == 0 || len(b) == 0 {
 				return false
@@ -461,12 +522,12 @@ func (m *Machine) callSSA(caller *frame, callpos token.Pos, fn *ssa.Function, ar
 			a0, b0 := uintptr(unsafe.Pointer(&a[0])), uintptr(unsafe.Pointer(&b[0]))
 			return a0 <= b0+uintptr(len(b))*sz-1 && b0 <= a0+uintptr(len(a))*sz-1
 		}
-		if ext := m.eng.intrinsics[name]; ext != nil {
+		if ext := info.intrinsic; ext != nil {
 			saved := m.fr
 			m.fr = fr
 			defer func() { m.fr = saved }()
-			if m.eng.Coverage != nil {
-				m.eng.noteFunc("intrinsic:" + name)
+			if m.eng.Coverage != nil && !strings.HasPrefix(fn.Name(), "vf_") {
+				m.noteFunc("intrinsic:" + info.name)
 			}
 			return ext(fr, args)
 		}
@@ -475,17 +536,14 @@ func (m *Machine) callSSA(caller *frame, callpos token.Pos, fn *ssa.Function, ar
 				return nil
 			}
 		}
-		if fn.Blocks == nil {
-			if fn.Pkg != nil {
-				fn.Pkg.Build()
-			}
-			if fn.Blocks == nil {
-				panic(unsupported("no code for function: " + name))
-			}
+		if !info.built {
+			panic(unsupported("no code for function: " + info.name))
 		}
 		if m.eng.Coverage != nil {
-			m.eng.noteFunc(name)
+			m.noteFunc(info.name)
 		}
+	} else if !info.built {
+		panic(unsupported("no code for function: " + info.name))
 	}
 	if fn.TypeParams().Len() > 0 && len(fn.TypeArgs()) == 0 {
 		panic(unsupported("uninstantiated generic function " + fn.String()))
@@ -498,18 +556,20 @@ func (m *Machine) callSSA(caller *frame, callpos token.Pos, fn *ssa.Function, ar
 	m.fr = fr
 	defer func() { m.fr = saved; m.depth-- }()
 
-	fr.env = make(map[ssa.Value]value)
+	fr.info = info
+	fr.env = make([]value, info.n)
+	fr.isSet = make([]bool, info.n)
 	fr.block = fn.Blocks[0]
 	fr.locals = make([]value, len(fn.Locals))
 	for i, l := range fn.Locals {
 		fr.locals[i] = zero(mustDeref(l.Type()))
-		fr.env[l] = &fr.locals[i]
+		fr.set(l, &fr.locals[i])
 	}
 	for i, p := range fn.Params {
-		fr.env[p] = args[i]
+		fr.set(p, args[i])
 	}
 	for i, fv := range fn.FreeVars {
-		fr.env[fv] = env[i]
+		fr.set(fv, env[i])
 	}
 	for fr.block != nil {
 		m.runFrame(fr)
@@ -585,7 +645,7 @@ func (m *Machine) executePhis(fr *frame) []ssa.Instruction {
 			fr.phitemps = append(fr.phitemps, fr.get(phi.Edges[predIndex]))
 		}
 		for i, phi := range phis {
-			fr.env[phi.(*ssa.Phi)] = fr.phitemps[i]
+			fr.set(phi.(*ssa.Phi), fr.phitemps[i])
 		}
 	}
 	return nonPhis
